@@ -2,6 +2,7 @@ package val
 
 import (
 	"reflect"
+	"strings"
 )
 
 func Equal(a Value, b Value) bool {
@@ -56,15 +57,31 @@ func CompareVals(a []Value, b []Value) int {
 			}
 			return 1
 		}
-		c := v.(Comparable).Compare(b[i].(Comparable))
-		if c < 0 {
-			return c
-		}
-		if c > 0 {
+		if c := compare(v, b[i]); c != 0 {
 			return c
 		}
 	}
+	if len(a) < len(b) {
+		return -1
+	}
 	return 0
+}
+
+// compare orders any two values: values of different formats, the members of a union
+// for one, by format and values that have no order of their own by their text
+func compare(a Value, b Value) int {
+	if a.Format() != b.Format() {
+		if a.Format() < b.Format() {
+			return -1
+		}
+		return 1
+	}
+	ac, aHasOrder := a.(Comparable)
+	bc, bHasOrder := b.(Comparable)
+	if !aHasOrder || !bHasOrder {
+		return strings.Compare(a.String(), b.String())
+	}
+	return ac.Compare(bc)
 }
 
 type Reducer func(index int, v Value, data interface{}) interface{}
